@@ -30,13 +30,13 @@ use serde_json::{json, Value};
 
 //------------ materialisation ------------------------------------------------------------------------------
 
-const NS: &str = "http://www.ripe.net/rpki/rrdp";
-const NURI: u64 = 3;
+pub const NS: &str = "http://www.ripe.net/rpki/rrdp";
+pub const NURI: u64 = 3;
 
-fn session_uuid(s: u64) -> String { format!("{:08x}-1111-4222-8333-{:012x}", 0xc25c_0000u32 as u64 + (s & 0xffff), s) }
-fn obj_uri(u: u64) -> String { format!("rsync://rv.example/repo/u{}.cer", u) }
-fn obj_data(d: u64) -> Vec<u8> { format!("content-{}-of-the-c25-universe", d).into_bytes() }
-fn sha256(b: &[u8]) -> Vec<u8> { ring::digest::digest(&ring::digest::SHA256, b).as_ref().to_vec() }
+pub fn session_uuid(s: u64) -> String { format!("{:08x}-1111-4222-8333-{:012x}", 0xc25c_0000u32 as u64 + (s & 0xffff), s) }
+pub fn obj_uri(u: u64) -> String { format!("rsync://rv.example/repo/u{}.cer", u) }
+pub fn obj_data(d: u64) -> Vec<u8> { format!("content-{}-of-the-c25-universe", d).into_bytes() }
+pub fn sha256(b: &[u8]) -> Vec<u8> { ring::digest::digest(&ring::digest::SHA256, b).as_ref().to_vec() }
 
 fn base64(data: &[u8]) -> String {
     const T: &[u8; 64] = b"ABCDEFGHIJKLMNOPQRSTUVWXYZabcdefghijklmnopqrstuvwxyz0123456789+/";
@@ -54,7 +54,7 @@ fn base64(data: &[u8]) -> String {
 
 /// The XML of a snapshot or delta document.  `broken`: after the listed elements comes an element the
 /// schema does not know, so processing fails right after them.
-fn doc_xml(doc: &Value) -> Vec<u8> {
+pub fn doc_xml(doc: &Value) -> Vec<u8> {
     let snap = doc["t"] == "s";
     let root = if snap { "snapshot" } else { "delta" };
     let mut s = format!("<{} xmlns=\"{}\" version=\"1\" session_id=\"{}\" serial=\"{}\">\n",
@@ -85,7 +85,7 @@ impl Interner {
     fn id(&mut self, h: &[u8]) -> u64 { let n = self.map.len() as u64 + 1; *self.map.entry(h.to_vec()).or_insert(n) }
 }
 
-fn file_of<'a>(step: &'a Value, r: u64) -> Option<&'a Value> {
+pub fn file_of<'a>(step: &'a Value, r: u64) -> Option<&'a Value> {
     step["files"].as_array().unwrap().iter().find(|f| f["ref"].as_u64() == Some(r))
 }
 
@@ -99,11 +99,11 @@ fn resolve_dig(step: &Value, dig: &Value) -> Vec<u8> {
 
 //------------ Coq printers ----------------------------------------------------------------------------------
 
-fn coq_pairs(v: &Value) -> String {
+pub fn coq_pairs(v: &Value) -> String {
     coq_list(v.as_array().unwrap().iter(), |e| format!("({}, {})", e[0].as_u64().unwrap(), e[1].as_u64().unwrap()))
 }
 
-fn coq_doc(doc: &Value) -> String {
+pub fn coq_doc(doc: &Value) -> String {
     let (s, n, b) = (doc["session"].as_u64().unwrap(), doc["serial"].as_u64().unwrap(), doc["broken"].as_bool().unwrap_or(false));
     if doc["t"] == "s" {
         format!("(DSnap {} {} {} {})", s, n, coq_pairs(&doc["els"]), coq_bool(b))
@@ -120,7 +120,7 @@ fn coq_doc(doc: &Value) -> String {
 
 //------------ running one case ------------------------------------------------------------------------------
 
-struct Env { srv: Server, seq: AtomicU64 }
+pub struct Env { pub srv: Server, pub seq: AtomicU64 }
 
 type Updater = Box<dyn FnMut(Option<&Config>, &uri::Https, &[uri::Rsync]) -> (u8, Option<&'static str>, Vec<Option<bytes::Bytes>>, Option<std::path::PathBuf>)>;
 thread_local! { static UPDATER: std::cell::RefCell<Option<Updater>> = const { std::cell::RefCell::new(None) }; }
@@ -128,16 +128,59 @@ thread_local! { static UPDATER: std::cell::RefCell<Option<Updater>> = const { st
 const REASONS: &[&str] = &["", "new-repository", "new-session", "inconsistent-delta-set", "large-delta-set", "delta-mutation",
     "large-serial", "outdate-local", "conflicting-delta", "too-many-deltas", "corrupt-local-copy"];
 
-fn run(input: &Value, env: &Env) -> CaseOut {
-    let id = env.seq.fetch_add(1, Ordering::SeqCst);
-    let prefix = format!("/c{}/", id);
-    let cfg = &input["cfg"];
-    let max_list = cfg["max_list"].as_u64().unwrap();
-    let max_count = cfg["max_count"].as_u64().unwrap();
-    let expire = cfg["expire"].as_bool().unwrap();
+/// The kill points of the RRDP update (hooks `crate::verif::kill_point` in src/collector/rrdp/{base,update}.rs),
+/// numbered as coq/C24/Model.v numbers them.
+pub const KILL_LABELS: &[&str] = &["", "rrdp.delta.publish", "rrdp.delta.update", "rrdp.delta.withdraw", "rrdp.delta.state",
+    "rrdp.snapshot.begin", "rrdp.snapshot.publish", "rrdp.snapshot.state", "rrdp.snapshot.remove", "rrdp.snapshot.rename",
+    "rrdp.snapshot.renamed", "rrdp.tainted.remove", "rrdp.not_modified.state"];
 
-    let dir = tempfile::tempdir().unwrap();
-    let mut config = Config::default_with_paths(Default::default(), dir.path().join("cache"));
+pub type Local = Option<(u64, u64, Vec<(u64, u64)>, BTreeMap<u64, u64>)>;
+
+/// What one run looked like from outside.
+pub struct StepObs {
+    pub result: u64,
+    pub reason: u64,
+    pub reason_name: Option<String>,
+    pub reqs: Vec<u64>,
+    pub local: Local,
+    pub probe_ok: bool,
+    /// For the run that was given a kill counter: the kill points passed (the last one is where the process died,
+    /// if it died) and whether it died.
+    pub kill_points: Vec<u64>,
+    pub killed: bool,
+}
+
+impl StepObs {
+    pub fn coq_local(&self) -> String {
+        match &self.local {
+            None => "None".to_string(),
+            Some((s, n, ds, c)) => format!("(Some {{| l_session := {}; l_serial := {}; l_dstate := {}; l_content := {} |}})", s, n,
+                coq_list(ds.iter(), |(a, b)| format!("({}, {})", a, b)), coq_list(c.iter(), |(a, b)| format!("({}, {})", a, b))),
+        }
+    }
+    pub fn coq_sobs(&self) -> String {
+        format!("{{| o_result := {}; o_reason := {}; o_reqs := {}; o_local := {}; o_probe_ok := {} |}}",
+            self.result, self.reason, coq_nlist(self.reqs.iter()), self.coq_local(), coq_bool(self.probe_ok))
+    }
+    pub fn json(&self) -> Value {
+        let result_name = ["unavailable", "stale", "current", "updated", "run-failed-retry", "run-failed-fatal", "panic", "killed"][self.result as usize];
+        let mut v = json!({
+            "result": result_name, "snapshot_reason": self.reason_name, "requests": self.reqs, "probe_ok": self.probe_ok,
+            "local": self.local.as_ref().map(|(s, n, ds, c)| json!({"session": s, "serial": n, "delta_state": ds,
+                "content": c.iter().map(|(a, b)| json!([a, b])).collect::<Vec<_>>()})),
+        });
+        if self.killed || !self.kill_points.is_empty() {
+            v["killed"] = json!(self.killed);
+            v["kill_points"] = json!(self.kill_points.iter().map(|k| KILL_LABELS.get(*k as usize).copied().unwrap_or("?")).collect::<Vec<_>>());
+        }
+        v
+    }
+}
+
+pub struct RunOut { pub cfg_coq: String, pub world_coq: String, pub coq_steps: Vec<String>, pub steps: Vec<StepObs> }
+
+fn make_config(cache: &std::path::Path, max_list: u64, max_count: u64, expire: bool) -> Config {
+    let mut config = Config::default_with_paths(Default::default(), cache.to_path_buf());
     config.rrdp_root_certs = vec![rrdpsrv::ca_cert_path()];
     config.allow_dubious_hosts = true;
     config.rrdp_timeout = Some(Duration::from_secs(60));
@@ -148,23 +191,58 @@ fn run(input: &Value, env: &Env) -> CaseOut {
         config.refresh = Duration::ZERO;
         config.rrdp_fallback_time = Duration::from_nanos(1);
     }
+    config
+}
+
+fn probes() -> Vec<uri::Rsync> { (0..NURI).map(|u| uri::Rsync::from_str(&obj_uri(u)).unwrap()).collect() }
+fn data_id(b: &[u8]) -> u64 { (0..8).find(|d| obj_data(*d) == b).unwrap_or(99) }
+
+/// `c25 crashstep <cache dir> <notify uri> <max_list> <max_count> <expire>`: one run of the real collector in a
+/// process of its own; with VERIF_KILL_AT=n in the environment the process aborts at the n-th kill point
+/// (printing the labels passed to stderr).  If it survives it prints the outcome as one JSON line.
+pub fn crashstep() {
+    let a: Vec<String> = std::env::args().collect();
+    let config = make_config(std::path::Path::new(&a[2]), a[4].parse().unwrap(), a[5].parse().unwrap(), a[6] == "true");
+    let notify_uri = uri::Https::from_str(&a[3]).unwrap();
+    let mut updater = config.verif_rrdp_updater().expect("RRDP collector");
+    let (result, reason, objects, _) = updater(None, &notify_uri, &probes());
+    let labels: Vec<String> = routinator::verif::kill_log().iter().map(|l| l.split('|').next().unwrap_or("").to_string()).collect();
+    println!("{}", json!({"result": result, "reason": reason, "labels": labels,
+        "objects": objects.iter().map(|o| o.as_ref().map(|b| data_id(b))).collect::<Vec<_>>()}));
+}
+
+/// Runs a case.  Optional keys of the input: `"etag": true` = every notification is served with the entity tag
+/// of its session and serial and a request carrying that tag is answered 304 (an honest server);
+/// `"crash": {"step": t, "kill_at": n}` = run t is made by a process of its own that dies at its n-th kill point.
+pub fn run_case(input: &Value, env: &Env) -> RunOut {
+    let id = env.seq.fetch_add(1, Ordering::SeqCst);
+    let prefix = format!("/c{}/", id);
+    let cfg = &input["cfg"];
+    let max_list = cfg["max_list"].as_u64().unwrap();
+    let max_count = cfg["max_count"].as_u64().unwrap();
+    let expire = cfg["expire"].as_bool().unwrap();
+    let etag = input["etag"].as_bool().unwrap_or(false);
+    let crash: Option<(usize, u64)> = input.get("crash").filter(|c| !c.is_null())
+        .map(|c| (c["step"].as_u64().unwrap() as usize, c["kill_at"].as_u64().unwrap()));
+
+    let dir = tempfile::tempdir().unwrap();
+    let cache = dir.path().join("cache");
+    let config = make_config(&cache, max_list, max_count, expire);
     // one HTTP client per worker thread; the collector is moved to this case's cache directory and settings
     UPDATER.with(|u| { if u.borrow().is_none() { *u.borrow_mut() = Some(config.verif_rrdp_updater().expect("RRDP collector")); } });
     let mut first = true;
     let notify_path = format!("{}notification.xml", prefix);
     let notify_uri = uri::Https::from_str(&env.srv.uri(&notify_path)).unwrap();
-    let probes: Vec<uri::Rsync> = (0..NURI).map(|u| uri::Rsync::from_str(&obj_uri(u)).unwrap()).collect();
-    let data_id = |b: &[u8]| -> u64 { (0..8).find(|d| obj_data(*d) == b).unwrap_or(99) };
+    let archive_path = config.verif_rrdp_repository_path(&notify_uri);
+    let probes = probes();
     let uri_id = |u: &str| -> u64 { (0..16).find(|i| obj_uri(*i) == u).unwrap_or(99) };
     let session_id = |s: &str| -> u64 { (0..64).find(|i| session_uuid(*i) == s).unwrap_or(99) };
 
     let mut intern = Interner { map: HashMap::new() };
     let mut coq_steps = Vec::new();
-    let mut coq_obs = Vec::new();
-    let mut obs_json = Vec::new();
-    let mut any_updated_by_delta = false;
+    let mut steps_obs = Vec::new();
 
-    for step in input["steps"].as_array().unwrap() {
+    for (t, step) in input["steps"].as_array().unwrap().iter().enumerate() {
         env.srv.clear_prefix(&prefix);
         // files
         let mut coq_files = Vec::new();
@@ -199,7 +277,7 @@ fn run(input: &Value, env: &Env) -> CaseOut {
                 }
                 xml.push_str("</notification>\n");
                 let mut body = xml.into_bytes();
-                let canned = if k == "bad" {
+                let mut canned = if k == "bad" {
                     match n["how"].as_str().unwrap_or("xml") {
                         "origin" => Canned::ok(body),
                         "trunc" => { let keep = body.len() / 2; Canned::truncated(body, keep) }
@@ -207,6 +285,7 @@ fn run(input: &Value, env: &Env) -> CaseOut {
                         _ => Canned::ok(b"<notification this is not xml".to_vec()),
                     }
                 } else { Canned::ok(body) };
+                if etag { canned = canned.with_etag(&format!("\"s{}-n{}\"", n["session"].as_u64().unwrap(), n["serial"].as_u64().unwrap())); }
                 env.srv.set(&notify_path, canned);
                 if k == "bad" { "NBad".to_string() } else {
                     format!("(NOk {{| nf_session := {}; nf_serial := {}; nf_snap_ref := {}; nf_snap_dig := {}; nf_deltas := {} |}})",
@@ -219,24 +298,59 @@ fn run(input: &Value, env: &Env) -> CaseOut {
 
         // one validation run
         let _ = env.srv.take_log(&prefix);
-        let res = std::panic::catch_unwind(std::panic::AssertUnwindSafe(|| UPDATER.with(|u| {
-            let mut u = u.borrow_mut();
-            (u.as_mut().unwrap())(if first { Some(&config) } else { None }, &notify_uri, &probes)
-        })));
-        first = false;
-        if res.is_err() { UPDATER.with(|u| { if let Ok(mut u) = u.try_borrow_mut() { *u = None; } }); }
-        let (result, reason, objects, path) = match res { Ok(r) => r, Err(_) => (6, None, Vec::new(), None) };
+        let mut kill_points: Vec<u64> = Vec::new();
+        let mut killed = false;
+        let (result, reason, objects): (u64, Option<String>, Vec<Option<u64>>) = match crash {
+            Some((ct, kill_at)) if ct == t => {
+                // a process of its own that dies at its kill_at-th kill point
+                let out = std::process::Command::new(std::env::current_exe().expect("current_exe"))
+                    .arg("crashstep").arg(&cache).arg(notify_uri.as_str())
+                    .arg(max_list.to_string()).arg(max_count.to_string()).arg(expire.to_string())
+                    .env("VERIF_KILL_AT", kill_at.to_string())
+                    .output().expect("spawn crashstep");
+                let labels: Vec<String>;
+                let res;
+                if out.status.success() {
+                    let v: Value = serde_json::from_slice(&out.stdout).expect("crashstep output");
+                    labels = v["labels"].as_array().unwrap().iter().map(|l| l.as_str().unwrap().to_string()).collect();
+                    res = (v["result"].as_u64().unwrap(), v["reason"].as_str().map(|s| s.to_string()),
+                           v["objects"].as_array().unwrap().iter().map(|o| o.as_u64()).collect());
+                }
+                else {
+                    killed = true;
+                    labels = String::from_utf8_lossy(&out.stderr).lines()
+                        .filter_map(|l| l.strip_prefix("VERIF_KILL_POINT ")).map(|l| l.split('|').next().unwrap_or("").to_string()).collect();
+                    // died without having reached a kill point: not a kill, a harness problem -> visible as result 6
+                    res = (if labels.len() as u64 == kill_at { 7 } else { 6 }, None, Vec::new());
+                }
+                kill_points = labels.iter().map(|l| KILL_LABELS.iter().position(|x| x == l).unwrap_or(99) as u64).collect();
+                res
+            }
+            _ => {
+                let res = std::panic::catch_unwind(std::panic::AssertUnwindSafe(|| UPDATER.with(|u| {
+                    let mut u = u.borrow_mut();
+                    (u.as_mut().unwrap())(if first { Some(&config) } else { None }, &notify_uri, &probes)
+                })));
+                first = false;
+                if res.is_err() { UPDATER.with(|u| { if let Ok(mut u) = u.try_borrow_mut() { *u = None; } }); }
+                match res {
+                    Ok((r, reason, objects, _)) => (r as u64, reason.map(|s| s.to_string()),
+                        objects.iter().map(|o| o.as_ref().map(|b| data_id(b))).collect()),
+                    Err(_) => (6, None, Vec::new()),
+                }
+            }
+        };
         let reqs: Vec<u64> = env.srv.take_log(&prefix).iter().map(|r| {
             let name = &r.path[prefix.len()..];
             if name == "notification.xml" { 0 }
             else { name.strip_prefix('f').and_then(|s| s.strip_suffix(".xml")).and_then(|s| s.parse().ok()).unwrap_or(9999) }
         }).collect();
-        let reason_id = reason.map(|r| REASONS.iter().position(|x| *x == r).unwrap_or(99) as u64).unwrap_or(0);
+        let reason_id = reason.as_ref().map(|r| REASONS.iter().position(|x| *x == r.as_str()).unwrap_or(99) as u64).unwrap_or(0);
 
         // read the archive back
-        let mut local: Option<(u64, u64, Vec<(u64, u64)>, BTreeMap<u64, u64>)> = None;
+        let mut local: Local = None;
         let mut readable = true;
-        if let Some(path) = path.as_ref() {
+        if let Some(path) = archive_path.as_ref() {
             if path.exists() {
                 match RrdpArchive::open(Arc::new(path.clone())) {
                     Ok(archive) => {
@@ -263,44 +377,37 @@ fn run(input: &Value, env: &Env) -> CaseOut {
         // what the run's own reader hands out must be what is in the archive
         let probe_ok = readable && (result != 3 || match &local {
             Some((_, _, _, content)) => objects.len() == NURI as usize && (0..NURI).all(|u| {
-                objects[u as usize].as_ref().map(|b| data_id(b)) == content.get(&u).copied()
+                objects[u as usize] == content.get(&u).copied()
             }) && content.keys().all(|u| *u < NURI),
             None => false,
         });
-        if result == 3 && reason_id == 0 && reqs.len() > 1 { any_updated_by_delta = true; }
-        let coq_local = match &local {
-            None => "None".to_string(),
-            Some((s, n, ds, c)) => format!("(Some {{| l_session := {}; l_serial := {}; l_dstate := {}; l_content := {} |}})", s, n,
-                coq_list(ds.iter(), |(a, b)| format!("({}, {})", a, b)), coq_list(c.iter(), |(a, b)| format!("({}, {})", a, b))),
-        };
-        coq_obs.push(format!("{{| o_result := {}; o_reason := {}; o_reqs := {}; o_local := {}; o_probe_ok := {} |}}",
-            result, reason_id, coq_nlist(reqs.iter()), coq_local, coq_bool(probe_ok)));
-        let result_name = ["unavailable", "stale", "current", "updated", "run-failed-retry", "run-failed-fatal", "panic"][result as usize];
-        obs_json.push(json!({
-            "result": result_name,
-            "snapshot_reason": reason, "requests": reqs, "probe_ok": probe_ok,
-            "local": local.as_ref().map(|(s, n, ds, c)| json!({"session": s, "serial": n, "delta_state": ds,
-                "content": c.iter().map(|(a, b)| json!([a, b])).collect::<Vec<_>>()})),
-        }));
+        steps_obs.push(StepObs { result, reason: reason_id, reason_name: reason, reqs, local, probe_ok, kill_points, killed });
     }
     env.srv.clear_prefix(&prefix);
 
-    let world = coq_list(input["world"].as_array().unwrap().iter(), |w| {
+    let world_coq = coq_list(input["world"].as_array().unwrap().iter(), |w| {
         format!("({}, {}, {})", w[0].as_u64().unwrap(), w[1].as_u64().unwrap(), coq_pairs(&w[2]))
     });
-    let coq = format!("{{| c_cfg := {{| c_max_list := {}; c_max_count := {}; c_expire := {} |}}; c_world := {}; c_steps := {}; c_impl := {} |}}",
-        max_list, max_count, coq_bool(expire), world, coq_list(coq_steps.iter(), |s| s.clone()), coq_list(coq_obs.iter(), |s| s.clone()));
-    CaseOut { obs: json!(obs_json), coq, nontrivial: any_updated_by_delta }
+    let cfg_coq = format!("{{| c_max_list := {}; c_max_count := {}; c_expire := {} |}}", max_list, max_count, coq_bool(expire));
+    RunOut { cfg_coq, world_coq, coq_steps, steps: steps_obs }
+}
+
+fn run(input: &Value, env: &Env) -> CaseOut {
+    let out = run_case(input, env);
+    let coq = format!("{{| c_cfg := {}; c_world := {}; c_steps := {}; c_impl := {} |}}", out.cfg_coq, out.world_coq,
+        coq_list(out.coq_steps.iter(), |s| s.clone()), coq_list(out.steps.iter(), |s| s.coq_sobs()));
+    let by_delta = out.steps.iter().any(|s| s.result == 3 && s.reason == 0 && s.reqs.len() > 1);
+    CaseOut { obs: json!(out.steps.iter().map(|s| s.json()).collect::<Vec<_>>()), coq, nontrivial: by_delta }
 }
 
 //------------ generators ------------------------------------------------------------------------------------
 
-type Content = BTreeMap<u64, u64>;
+pub type Content = BTreeMap<u64, u64>;
 
-fn content_json(c: &Content) -> Value { json!(c.iter().map(|(u, d)| json!([u, d])).collect::<Vec<_>>()) }
+pub fn content_json(c: &Content) -> Value { json!(c.iter().map(|(u, d)| json!([u, d])).collect::<Vec<_>>()) }
 
 /// The genuine delta between two contents (elements in URI order).
-fn diff(a: &Content, b: &Content) -> Vec<Value> {
+pub fn diff(a: &Content, b: &Content) -> Vec<Value> {
     let mut els = Vec::new();
     for u in 0..NURI {
         match (a.get(&u), b.get(&u)) {
@@ -315,24 +422,24 @@ fn diff(a: &Content, b: &Content) -> Vec<Value> {
 
 /// A linear history of one session: `first` serial and the contents of the successive versions.
 #[derive(Clone)]
-struct Hist { session: u64, first: u64, versions: Vec<Content> }
+pub struct Hist { pub session: u64, pub first: u64, pub versions: Vec<Content> }
 
 impl Hist {
-    fn serial(&self, i: usize) -> u64 { self.first + i as u64 }
-    fn snap_doc(&self, i: usize) -> Value {
+    pub fn serial(&self, i: usize) -> u64 { self.first + i as u64 }
+    pub fn snap_doc(&self, i: usize) -> Value {
         json!({"t": "s", "session": self.session, "serial": self.serial(i),
                "els": self.versions[i].iter().map(|(u, d)| json!([u, d])).collect::<Vec<_>>(), "broken": false})
     }
     /// The genuine delta leading to version i (i >= 1).
-    fn delta_doc(&self, i: usize) -> Value {
+    pub fn delta_doc(&self, i: usize) -> Value {
         json!({"t": "d", "session": self.session, "serial": self.serial(i), "els": diff(&self.versions[i - 1], &self.versions[i]), "broken": false})
     }
-    fn world(&self) -> Vec<Value> {
+    pub fn world(&self) -> Vec<Value> {
         (0..self.versions.len()).map(|i| json!([self.session, self.serial(i), content_json(&self.versions[i])])).collect()
     }
     /// What an honest server at version i serves: snapshot under ref 1, delta j under ref 10 + j, the last
     /// `window` deltas listed.
-    fn honest_step(&self, i: usize, window: usize) -> Value {
+    pub fn honest_step(&self, i: usize, window: usize) -> Value {
         let lo = if i > window { i - window + 1 } else { 1 };
         let mut files = vec![json!({"ref": 1, "status": 200, "doc": self.snap_doc(i)})];
         let mut deltas = Vec::new();
@@ -346,9 +453,9 @@ impl Hist {
     }
 }
 
-fn content_of(pairs: &[(u64, u64)]) -> Content { pairs.iter().cloned().collect() }
+pub fn content_of(pairs: &[(u64, u64)]) -> Content { pairs.iter().cloned().collect() }
 
-fn case(cfg: (u64, u64, bool), hists: &[&Hist], steps: Vec<Value>) -> Value {
+pub fn case(cfg: (u64, u64, bool), hists: &[&Hist], steps: Vec<Value>) -> Value {
     let world: Vec<Value> = hists.iter().flat_map(|h| h.world()).collect();
     json!({"cfg": {"max_list": cfg.0, "max_count": cfg.1, "expire": cfg.2}, "world": world, "steps": steps})
 }
@@ -357,7 +464,7 @@ fn case(cfg: (u64, u64, bool), hists: &[&Hist], steps: Vec<Value>) -> Value {
 
 /// Replaces every symbolic hash "hash of the file under ref r" by "hash of this document", so that changing a
 /// file afterwards does not change the hash the notification announces.
-fn pin(step: &Value) -> Value {
+pub fn pin(step: &Value) -> Value {
     let mut s = step.clone();
     if s["notify"]["k"] != "ok" && s["notify"]["k"] != "bad" { return s }
     let fix = |dig: &Value| -> Value {
@@ -372,11 +479,11 @@ fn pin(step: &Value) -> Value {
     s
 }
 
-type Fault = (String, Value, Option<(u64, u64)>);
+pub type Fault = (String, Value, Option<(u64, u64)>);
 
 /// Every single fault applicable to a step (an honest one or one that already carries faults).  `h`, `i`: the
 /// history and version the server is at (for documents of the wrong type).
-fn faults_of(step: &Value, h: &Hist, i: usize) -> Vec<Fault> {
+pub fn faults_of(step: &Value, h: &Hist, i: usize) -> Vec<Fault> {
     let base = pin(step);
     let mut res: Vec<Fault> = Vec::new();
     if base["notify"]["k"] != "ok" { return res }
@@ -494,7 +601,7 @@ fn faults_of(step: &Value, h: &Hist, i: usize) -> Vec<Fault> {
 
 //------------ histories and walks ---------------------------------------------------------------------------
 
-fn all_contents() -> Vec<Content> {
+pub fn all_contents() -> Vec<Content> {
     let mut res = Vec::new();
     for code in 0..27u64 {
         let mut c = Content::new();
@@ -505,7 +612,7 @@ fn all_contents() -> Vec<Content> {
     res
 }
 
-fn fixed_histories() -> Vec<Hist> {
+pub fn fixed_histories() -> Vec<Hist> {
     let c = content_of;
     vec![
         // publish, update, publish
@@ -521,7 +628,7 @@ fn fixed_histories() -> Vec<Hist> {
     ]
 }
 
-fn random_history(rng: &mut Rng, session: u64, len: usize) -> Hist {
+pub fn random_history(rng: &mut Rng, session: u64, len: usize) -> Hist {
     let all = all_contents();
     let mut versions = vec![rng.pick(&all).clone()];
     while versions.len() < len {
@@ -545,11 +652,11 @@ fn random_history(rng: &mut Rng, session: u64, len: usize) -> Hist {
 }
 
 /// The sequence of honest steps for a walk: (index of the history, version, number of deltas listed).
-fn honest_walk(hists: &[Hist], walk: &[(usize, usize, usize)]) -> Vec<Value> {
+pub fn honest_walk(hists: &[Hist], walk: &[(usize, usize, usize)]) -> Vec<Value> {
     walk.iter().map(|(hi, v, w)| hists[*hi].honest_step(*v, *w)).collect()
 }
 
-fn case_of(cfg: (u64, u64, bool), hists: &[Hist], steps: Vec<Value>) -> Value {
+pub fn case_of(cfg: (u64, u64, bool), hists: &[Hist], steps: Vec<Value>) -> Value {
     let refs: Vec<&Hist> = hists.iter().collect();
     case(cfg, &refs, steps)
 }
@@ -697,7 +804,7 @@ fn gen(rng: &mut Rng, tier: &str) -> Vec<(String, Value)> {
 struct Worker { child: std::process::Child, stdin: std::process::ChildStdin, stdout: std::io::BufReader<std::process::ChildStdout> }
 thread_local! { static WORKER: std::cell::RefCell<Option<Worker>> = const { std::cell::RefCell::new(None) }; }
 
-fn via_worker(input: &Value) -> CaseOut {
+pub fn via_worker(input: &Value) -> CaseOut {
     use std::io::{BufRead, Write};
     WORKER.with(|w| {
         let mut w = w.borrow_mut();
@@ -719,7 +826,7 @@ fn via_worker(input: &Value) -> CaseOut {
     })
 }
 
-fn worker() {
+pub fn worker(run: fn(&Value, &Env) -> CaseOut) {
     use std::io::{BufRead, Write};
     let env = Env { srv: Server::start(), seq: AtomicU64::new(0) };
     let stdin = std::io::stdin();
@@ -734,8 +841,10 @@ fn worker() {
     }
 }
 
+#[allow(dead_code)]
 fn main() {
-    if std::env::args().nth(1).as_deref() == Some("worker") { return worker() }
+    if std::env::args().nth(1).as_deref() == Some("worker") { return worker(run) }
+    if std::env::args().nth(1).as_deref() == Some("crashstep") { return crashstep() }
     let threads = std::env::var("C25_WORKERS").ok().and_then(|s| s.parse().ok()).unwrap_or(12);
     drive_par(gen, via_worker, threads);
 }
